@@ -10,6 +10,10 @@ spec/C05/Sb31CfgGen.tla   GEN: the same for the CONFIGURATION entry point (Secur
 spec/C05/Sb31Obj.tla      I-spec of one SecureBinary31 object exported repeatedly (as built / intended) + history GEN
 spec/C05/Sb31RomTrace.tla TV : batch trace validation of the executor's events against Sb31Rom
 
+Key pool (keys/sb31, read only): every slot (root0..root3, isk) x curve holds one key of every VALUE CLASS of Sb31Format!KeyClasses -
+full width, leading zero byte in X, in Y, in both (derived deterministically by keys/sb31/gen_keys.py).  The GEN specs give every root
+position and the ISK a class (case.rk, case.ik); the device's root-of-trust hash is computed here from the fixed-width coordinates.
+
 Python only DRIVES: it concretises the abstract cases, builds the containers through the real classes
 (SecureBinary31, SecureBinary31Commands, Cmd*, CertBlockV21) or - configuration lane - renders a configuration dictionary + files
 and calls SecureBinary31.load_from_config, exports, and lets the independent executor c05_rom
@@ -38,22 +42,36 @@ W = rom.W
 
 
 # ------------------------------------------------------------------ key pool (read only)
+KEY_CLASSES = ("full", "lzx", "lzy", "lzxy")   # Sb31Format!KeyClasses: no / X / Y / both coordinates of the public point start with a zero byte
+
+
+def kname(slot, cls="full"):
+    """Pool key for a slot (root0..root3, isk) and a value class: every slot holds one key of every class."""
+    return slot if cls == "full" else f"{slot}_{cls}"
+
+
 class Pool:
     def __init__(self):
         from cryptography.hazmat.primitives import serialization as ser
 
-        self.pub_pem, self.pub_xy, self.priv_path = {}, {}, {}
+        self.pub_pem, self.pub_xy, self.priv_path, self.pub_path = {}, {}, {}, {}
         for curve, d in ((32, "p256"), (48, "p384")):
-            for k in ("root0", "root1", "root2", "root3", "isk"):
-                p = os.path.join(KEYS, d, k + ".pub.pem")
-                if not os.path.exists(p):
-                    raise Machinery(f"key pool incomplete: {p} (run keys/sb31/gen_keys.py)")
-                pem = open(p, "rb").read()
-                key = ser.load_pem_public_key(pem)
-                n = key.public_numbers()
-                self.pub_pem[curve, k] = pem
-                self.pub_xy[curve, k] = n.x.to_bytes(curve, "big") + n.y.to_bytes(curve, "big")
-                self.priv_path[curve, k] = os.path.join(KEYS, d, k + ".pem")
+            for slot in ("root0", "root1", "root2", "root3", "isk"):
+                for cls in KEY_CLASSES:
+                    k = kname(slot, cls)
+                    p = os.path.join(KEYS, d, k + ".pub.pem")
+                    if not os.path.exists(p):
+                        raise Machinery(f"key pool incomplete: {p} (run keys/sb31/gen_keys.py)")
+                    pem = open(p, "rb").read()
+                    key = ser.load_pem_public_key(pem)
+                    n = key.public_numbers()
+                    xy = n.x.to_bytes(curve, "big") + n.y.to_bytes(curve, "big")      # fixed width: what every documented construction takes
+                    if rom.lz(xy) != [cls in ("lzx", "lzxy"), cls in ("lzy", "lzxy")]:
+                        raise Machinery(f"key pool: {p} is not of the value class '{cls}' (leading zero bytes of X, Y: {rom.lz(xy)})")
+                    self.pub_pem[curve, k] = pem
+                    self.pub_xy[curve, k] = xy
+                    self.pub_path[curve, k] = p
+                    self.priv_path[curve, k] = os.path.join(KEYS, d, k + ".pem")
         self.pck = {b: bytes.fromhex(open(os.path.join(KEYS, f"pck{b}.txt")).read().strip()) for b in (128, 256)}
         self._sp = {}
 
@@ -64,8 +82,9 @@ class Pool:
             self._sp[curve, k] = PlainFileSP(self.priv_path[curve, k])
         return self._sp[curve, k]
 
-    def rotkth(self, curve, nkeys):
-        return rom.rotkth([self.pub_xy[curve, f"root{i}"] for i in range(nkeys)])
+    def rotkth(self, curve, roots):
+        """What the fuses hold for the root set `roots` (pool key names): from the fixed-width X || Y of every key, hashlib only."""
+        return rom.rotkth([self.pub_xy[curve, k] for k in roots])
 
 
 _pool = None
@@ -76,6 +95,18 @@ def pool():
     if _pool is None:
         _pool = Pool()
     return _pool
+
+
+def roots_of(c):
+    """Pool key names of the root set of a case: position i holds the key of slot root<i> of the class the case gives it."""
+    rk = c.get("rk") or ["full"] * c["nkeys"]
+    if len(rk) != c["nkeys"] or any(x not in KEY_CLASSES for x in rk):
+        raise Machinery(f"case with key classes {rk} for {c['nkeys']} root keys")
+    return [kname(f"root{i}", rk[i]) for i in range(c["nkeys"])]
+
+
+def isk_of(c):
+    return kname("isk", c.get("ik") or "full")
 
 
 # ------------------------------------------------------------------ abstract case -> concrete input
@@ -131,14 +162,15 @@ def spec_inp(c, waive=()):
     return {"curve": c["curve"], "nkeys": c["nkeys"], "used": c["used"], "isk": c["isk"], "iskCurve": c["curve"], "udLen": len(ud),
             "udSha": hashlib.sha256(ud).hexdigest()[:16] if c["isk"] else "", "constraints": W(c["constraints"]), "pckBits": c["pck"],
             "rights": c["rights"], "enc": c["enc"], "nxp": c["nxp"], "flags": W(c["flags"]), "fw": W(c["fw"]), "ts": rom.limbs(c["ts"], 4),
-            "desc": [ord(x) for x in c["desc"]], "cmds": [spec_cmd(x) for x in c["cmds"]], "waive": list(waive)}
+            "desc": [ord(x) for x in c["desc"]], "cmds": [spec_cmd(x) for x in c["cmds"]], "waive": list(waive),
+            "rk": list(c.get("rk") or ["full"] * c["nkeys"]), "ik": (c.get("ik") or "full") if c["isk"] else "full"}
 
 
 def rom_env(c):
     """What the device is provisioned with (fuses): root-of-trust hash, part-common key, access rights, encryption mode."""
     p = pool()
     pck = bytes.fromhex(c["pck_hex"]) if "pck_hex" in c else p.pck[c["pck"]]   # configuration lane: the key the configuration was rendered from
-    return {"rotkth": p.rotkth(c["curve"], c["nkeys"]), "pck": pck, "rights": c["rights"], "enc": c["enc"]}
+    return {"rotkth": p.rotkth(c["curve"], roots_of(c)), "pck": pck, "rights": c["rights"], "enc": c["enc"]}
 
 
 # ------------------------------------------------------------------ the real code
@@ -185,14 +217,14 @@ def build(c):
     p = pool()
     if "k" in c:  # configuration lane: rendered into a configuration dictionary + files, built by SecureBinary31.load_from_config
         return cfgl.build(c, p)
-    curve, used = c["curve"], c["used"]
+    curve, used, roots, isk = c["curve"], c["used"], roots_of(c), isk_of(c)
     cb = CertBlockV21(
-        root_certs=[p.pub_pem[curve, f"root{i}"] for i in range(c["nkeys"])], ca_flag=not c["isk"], used_root_cert=used,
-        constraints=c["constraints"], signature_provider=p.sp(curve, f"root{used}") if c["isk"] else None,
-        isk_cert=p.pub_pem[curve, "isk"] if c["isk"] else None, user_data=bytes.fromhex(c["udata"]) or None, family=FAMILY)
+        root_certs=[p.pub_pem[curve, k] for k in roots], ca_flag=not c["isk"], used_root_cert=used,
+        constraints=c["constraints"], signature_provider=p.sp(curve, roots[used]) if c["isk"] else None,
+        isk_cert=p.pub_pem[curve, isk] if c["isk"] else None, user_data=bytes.fromhex(c["udata"]) or None, family=FAMILY)
     cb.calculate()
     sb = SecureBinary31(
-        family=FAMILY, cert_block=cb, firmware_version=c["fw"], signature_provider=p.sp(curve, "isk" if c["isk"] else f"root{used}"),
+        family=FAMILY, cert_block=cb, firmware_version=c["fw"], signature_provider=p.sp(curve, isk if c["isk"] else roots[used]),
         pck=p.pck[c["pck"]] if c["enc"] else None, kdk_access_rights=c["rights"] if c["enc"] else None,
         description=None if c["desc_none"] else c["desc"], is_nxp_container=c["nxp"], flags=c["flags"], timestamp=c["ts"], is_encrypted=c["enc"])
     if c.get("via_set"):
@@ -268,9 +300,28 @@ def strip(t):
 
 
 # ------------------------------------------------------------------ finding keys (naming only - the verdict is TLC's)
+def key_classes(case, isk=True):
+    """Naming only: which value classes of keys the case holds ('' = all keys at full width)."""
+    rk = case.get("rk") or []
+    out = ""
+    if any(x != "full" for x in rk):
+        out += "/root-key:" + ("only-" + rk[0] if len(rk) == 1 else "used-" + rk[case["used"]] if rk[case["used"]] != "full" else "not-used-short")
+    if isk and case.get("isk") and (case.get("ik") or "full") != "full":
+        out += "/isk:" + case["ik"]
+    return out
+
+
 def clause_of(t, matched):
     ev = t["ev"][min(matched, len(t["ev"]) - 1)]
     k = ev["ev"]
+    if k in ("RootKeyRecord", "IskCert", "VerifyBlock0", "CertBlockEnd"):
+        false = sorted(f for f, x in ev.items() if x is False and f not in ("ca", "hasUserData"))
+        lz_of = lambda cls: [cls in ("lzx", "lzxy"), cls in ("lzy", "lzxy")]  # noqa: E731
+        if k == "RootKeyRecord" and not false and ev["keyLz"] != lz_of(t["inp"]["rk"][t["inp"]["used"]]):
+            false = ["key-in-record-not-at-full-width"]
+        if k == "IskCert" and not false and ev["iskLz"] != lz_of(t["inp"]["ik"]):
+            false = ["isk-not-at-full-width"]
+        return k + ("/" + false[0] if false else "") + key_classes(t["case"], isk=k != "RootKeyRecord")
     if k == "Layout":
         return "total_length"
     if k == "Block":
@@ -322,6 +373,9 @@ def describe(t, matched):
         how = (f" built by SecureBinary31.load_from_config [family {k['fam']}, part-common key as {k['pckForm']} / {k['pckVal']}, isEncrypted {k['encKey']}, signing key in "
                f"{k['sign']}, certBlock as {k['cb']}, numbers as {k['num']}, commands "
                f"{[(CMD_NAMES[x['t']], x['form'], x['sub'], 'opt' if x['opt'] else 'no-opt', x['dl']) for x in c['cmds']][:6]}]")
+    kc = key_classes(c)
+    how += (f" [value classes of the keys (leading zero byte in X / Y / both): root set {c.get('rk')}, ISK {c.get('ik') if c['isk'] else '-'}; pool keys "
+            f"{roots_of(c)}{' + ' + isk_of(c) if c['isk'] else ''} in keys/sb31/p{c['curve'] * 8}]" if kc else "")
     return (f"export #{t['k']} of a container{how} (P-{c['curve'] * 8}, {c['nkeys']} root keys, used {c['used']}, isk={c['isk']}, pck={c['pck']}, rights={c['rights']}, "
             f"enc={c['enc']}, {len(t['inp']['cmds'])} commands, history {c.get('hist', ['Export'])}) is not accepted by the loader automaton: "
             f"event #{matched + 1} {json.dumps(ev)[:500]}")
@@ -395,6 +449,24 @@ ACTIONS = ("Build", "DoParseHeader", "DoHeaderFields", "DoLayout", "DoCertHeader
            "DoDeriveKdk", "DoBlock", "DoSection", "DoCmd", "DoAccept", "GiveUp")
 
 
+def key_dims(cases):
+    """Which (curve, short value class, role of the key) the cases hold: used root key of a set / another member / the only root key /
+    image signing key."""
+    out = set()
+    for c in cases:
+        rk = c.get("rk") or []
+        for i, cls in enumerate(rk):
+            if cls != "full":
+                out.add((c["curve"], cls, "only" if c["nkeys"] == 1 else "used" if i == c["used"] else "not-used", c["isk"]))
+        if c["isk"] and c.get("ik", "full") != "full":
+            out.add((c["curve"], c["ik"], "isk", True))
+    return out
+
+
+KEY_DIMS = ({(cv, cls, role, isk) for cv in (32, 48) for cls in KEY_CLASSES[1:] for role in ("only", "used", "not-used") for isk in (False, True)}
+            | {(cv, cls, "isk", True) for cv in (32, 48) for cls in KEY_CLASSES[1:]})
+
+
 def dedupe(items):
     seen, out = set(), []
     for x in items:
@@ -444,9 +516,11 @@ def run(tier):
     g2 = tlc.run("C05", "Sb31Gen", "Sb31Gen.cfg", env={"GEN_MODE": "sim", "GEN_FULL": 0, "GEN_MAXCMDS": 8}, workers=1, deadlock=False, heap="8g",
                  simulate=f"num={400 if quick else 6000}", depth=12, timeout=600)
     sim = dedupe(g2.json_prints())
-    if len(tour) < 2000 or len(sim) < (200 if quick else 3000):
+    if len(tour) < 3000 or len(sim) < (200 if quick else 3000):
         raise Machinery(f"case GEN produced only {len(tour)} + {len(sim)} cases\n{g2.out[-1500:]}")
     cases = tour + sim
+    if KEY_DIMS - key_dims(tour):
+        raise Machinery(f"case GEN does not cover the value classes of the keys: missing {sorted(KEY_DIMS - key_dims(tour))[:6]}")
     # histories x a seeded sample of configurations (every history with every class of configuration in the thorough tier)
     cfgs = [c for c in tour if len(c["cmds"]) == 3 and c["cmds"][1]["dl"] == 300]
     r.shuffle(cfgs)
@@ -457,13 +531,15 @@ def run(tier):
     kt, ks = kt_job.result(), ks_job.result()
     v.add_mc(kt)
     ktour, ksim = dedupe(kt.json_prints()), dedupe(ks.json_prints())
-    if len(ktour) < 900 or len(ksim) < (100 if quick else 1500):
+    if len(ktour) < 1800 or len(ksim) < (100 if quick else 1500):
         raise Machinery(f"configuration case GEN produced only {len(ktour)} + {len(ksim)} cases\n{ks.out[-1500:]}")
     kcases = ktour + ksim
     kdims = {"pck": sorted({(c["curve"], c["pck"], c["k"]["pckForm"], c["k"]["pckVal"]) for c in kcases if c["enc"]}),
              "cmd": sorted({(x["t"], x["form"], x["sub"], x["opt"]) for c in kcases for x in c["cmds"]}),
              "sign": sorted({(c["k"]["sign"], c["k"]["cb"], c["isk"], c["k"]["cbSign"], c["k"]["cbNew"], c["k"]["rootId"]) for c in kcases}),
              "num": sorted({c["k"]["num"] for c in kcases}), "enc": sorted({c["k"]["encKey"] for c in kcases})}
+    if KEY_DIMS - key_dims(ktour):
+        raise Machinery(f"configuration case GEN does not cover the value classes of the keys: missing {sorted(KEY_DIMS - key_dims(ktour))[:6]}")
     if len(kdims["pck"]) < 50 or len({x[:2] for x in kdims["cmd"]}) < 22 or len(kdims["sign"]) < 40 or len(kdims["num"]) < 4 or len(kdims["enc"]) < 3:
         raise Machinery(f"configuration case GEN does not cover its dimensions: { {k: len(x) for k, x in kdims.items()} }")
     say(f"[C05] GEN (configuration lane): {len(ktour)} tour cases, {len(ksim)} simulated cases; {len(kdims['pck'])} key classes (curve x size x form x value), "
@@ -497,6 +573,18 @@ def run(tier):
         b["id"] = "canary-bad-" + name
         f(b)
         canary.append(b)
+
+    # ---- canary of the key value classes: the good trace re-told for a used root key of class lzx (its X starts with a zero byte: the
+    #      loader sees that byte in the record) is accepted; the same with a record whose key does not start with a zero byte (a key
+    #      written at its minimal length / another key) is rejected
+    gk = json.loads(json.dumps(good))
+    gk["id"] = "canary-good-keyclass"
+    gk["inp"]["rk"][gk["inp"]["used"]] = "lzx"
+    next(e for e in gk["ev"] if e["ev"] == "RootKeyRecord")["keyLz"] = [True, False]
+    bk = json.loads(json.dumps(gk))
+    bk["id"] = "canary-bad-keyclass"
+    next(e for e in bk["ev"] if e["ev"] == "RootKeyRecord")["keyLz"] = [False, False]
+    canary += [gk, bk]
 
     # ---- canary of the configuration lane: a container built from a configuration (preferably with a 128-bit part-common key given as
     #      hex text) that the loader accepts; the SAME file walked by a loader that holds the key read with the other size (128-bit key
@@ -533,7 +621,8 @@ def run(tier):
     if {t["id"] for t in canary} & set(rej) != {t["id"] for t in canary if "-bad-" in t["id"]}:
         raise Machinery(f"canary failed: rejected {sorted(x for x in rej if str(x).startswith('canary'))}")
     v.extra["canary"] = ("known-good trace accepted; the same trace with a shifted block position, a changed input command, a false signature fact, "
-                         "a wrong KDF iteration count, a skipped block: all rejected; configuration lane: " + kcanary)
+                         "a wrong KDF iteration count, a skipped block: all rejected; the trace re-told for a used root key with a leading zero byte in X "
+                         "accepted, the same with a record whose key shows no such byte rejected; configuration lane: " + kcanary)
     v.sample({"case": acc[0]["case"], "export": acc[0]["k"], "events": acc[0]["ev"][:12]})
     v.sample({"case": acc[-1]["case"], "export": acc[-1]["k"], "events": [e for e in acc[-1]["ev"] if e["ev"] in ("Layout", "Block", "Section", "Cmd", "Accept")][:10]})
     n_acc = 0
@@ -556,9 +645,22 @@ def run(tier):
     v.extra["block_counts_seen"] = f"{ends[0]}..{ends[-1]} ({len(ends)} distinct)"
     v.extra["stream_end_offsets_mod_256"] = sorted({t["ev"][-1]["end"] % 256 for t in acc})
     v.extra["command_types_decoded"] = sorted({e["cmd"] for t in acc for e in t["ev"] if e["ev"] == "Cmd"})
+    seen = key_dims([t["case"] for t in acc])
+    sigs = [e["sigLz"] for t in acc for e in t["ev"] if e["ev"] in ("IskCert", "VerifyBlock0")]
+    v.extra["key_value_classes"] = {
+        "pool": "keys/sb31: every slot (root0..3, isk) x P-256 / P-384 holds a key of every class: full width, leading zero byte in X (lzx), in Y (lzy), in both (lzxy); "
+                "derived deterministically (label + counter search) with `cryptography`, classes re-checked at start-up",
+        "cases_with_short_keys": sum(1 for c in allc if key_classes(c)),
+        "accepted_exports_with_short_keys": sum(1 for t in acc if key_classes(t["case"])),
+        "classes_accepted (curve, class, role, isk)": len(seen), "classes_in_the_case_space": len(KEY_DIMS),
+        "signatures_verified": len(sigs), "signatures_with_leading_zero_byte_in_r": sum(1 for x in sigs if x[0]),
+        "signatures_with_leading_zero_byte_in_s": sum(1 for x in sigs if x[1])}
     v.cov["rule"] = (
         "cases = TLC-enumerated tours (every configuration: P-256/P-384 x 10 root sets/used keys x no ISK / ISK / ISK + 4 / 96 bytes user data x plain / PCK 128 / 256 x "
-        "rights 0..3 x NXP flag; every data command with data lengths that end the stream at every 16-byte offset of blocks 1..3 (thorough 1..5) with paddings of the last "
+        "rights 0..3 x NXP flag; VALUE CLASSES OF THE KEYS (tour R): on both curves every root set x used key with a pool key whose public point has a leading zero byte "
+        "in X / in Y / in both at every single position of the set (the used key, another member, the only key) and at all positions, x no ISK / ISK of every class "
+        "(thorough: every vector of classes over the set) - the device's root-of-trust hash is computed by the harness from the fixed-width coordinates with hashlib; "
+        "every data command with data lengths that end the stream at every 16-byte offset of blocks 1..3 (thorough 1..5) with paddings of the last "
         "word; every command type alone over a data-length menu (thorough: all lengths 0..530); every ordered pair of the 14 command types; no command; multi-block payloads) "
         "+ TLC-simulated random command lists (<= 8 commands) over all configurations + every export history (<= 3 exports, commands added in between) x sampled "
         "configurations; each case is concretised from VERIF_SEED, built through SecureBinary31 / Cmd* / CertBlockV21, exported, and the exported bytes are walked by the "
@@ -570,7 +672,9 @@ def run(tier):
         "mainRootCertId given / found from the key, user data) x root sets; every command kind of the schema (13; RESET has none) in every form (file / comma separated "
         "words / one number / one value / legacy `authentication`; plainInput x wrapping key name; every counter name; optional memory ids given / omitted) x every number "
         "format (int, hex, decimal, 0x1234_5678) and over a payload-length menu; all kinds in one configuration; optional header keys given / omitted; exported once / "
-        "twice; + TLC-simulated combinations of all of these with random command lists (<= 6). Same executor, same R-spec. "
+        "twice; value classes of the keys the configuration names (tour R of Sb31CfgGen: short-coordinate keys at every position of the root set x ISK of every class x "
+        "certificate block nested / binary x main certificate index given / found from the key); "
+        "+ TLC-simulated combinations of all of these with random command lists (<= 6). Same executor, same R-spec. "
         "Tampering: single-bit flips stratified over all regions of accepted files (thorough: every bit of two whole files).")
     v.extra["config_lane"] = {"cases": len(kcases), "key_classes": len(kdims["pck"]), "command_shapes": len(kdims["cmd"]), "signing_shapes": len(kdims["sign"]),
                               "number_formats": kdims["num"], "isEncrypted": kdims["enc"],
@@ -581,6 +685,10 @@ def run(tier):
         "bytes after LOAD_HASH_LOCKING data, the word order of CONFIGURE_MEMORY / FW_VERSION_CHECK and the 16/16-bit split of LOAD_KEY_BLOB come from the pinned source, "
         "cross-checked in phase 1 against the golden .sb3 files; clauses carrying them detect changes but are not independent evidence",
         "the derived key length follows the hash type (128 bit with SHA-256, 256 bit with SHA-384), not the PCK length (learned from the golden files)",
+        "keys: all root keys of a set and the ISK are distinct keys; a coordinate has at most ONE leading zero byte in the pool (two or more: probability 2^-16, same "
+        "code paths); the signatures are made by SPSDK's own provider with random nonces, so r / s with leading zero bytes arise by chance only (about 1 signature in 64; "
+        "the count seen is in extra.key_value_classes); the root-of-trust hash SPSDK REPORTS for fusing (cert_block.rkth) is not compared here (property C03) - a "
+        "single-key root set, where the file holds no hash table, is decided on the file alone",
         "the ISK is on the same curve as the root set (mixed curves: loader behaviour not documented - outside the asserted domain)",
         "timestamp 0 is outside the domain (the constructor reads 0 as 'now'); descriptions are printable ASCII; PROGRAM_FUSES data is a whole number of words; "
         "LOAD_KEY_BLOB offset and wrapping-key id fit 16 bits; ISK user data is a multiple of 4 up to 96 bytes (device limits)",
